@@ -273,6 +273,15 @@ Theorem C19_zero_sum_via_multi : forall e L ops s,
 Proof. exact single_zero_sum_from_multi. Qed.
 Print Assumptions C19_zero_sum_via_multi.
 
+(* an admitted transaction is dropped with its whole gas limit burnt only for one of the three reasons the code has
+   (intrinsic gas, value to a blocked address, block gas overflow); otherwise it executes. The model step has no other input,
+   in particular not the block proposer: monitor mustrun demands the same of the implementation for every proposer state. *)
+Theorem C19_admitted_runs : forall e s t o,
+  env_ok e = true -> oracle_ok t o = true -> state_ok s ->
+  must_run_ok e t o (view_of s t) (code_of (snd (deliver e s t o))) = true.
+Proof. exact deliver_must_run_ok. Qed.
+Print Assumptions C19_admitted_runs.
+
 (* ---- the fee market between blocks (C19/BaseFee.v): sequences of BLOCKS ---- *)
 
 (* one base-fee update: unchanged on target, strictly up above it, down (never below floor(MinGasPrice)) under it *)
